@@ -1520,6 +1520,14 @@ class _Accessors(ast.NodeTransformer):
             ast.copy_location(new, node)
             ast.fix_missing_locations(new)
             return self.visit(new)
+        # calcsize('<constant format>') is a number
+        if isinstance(f, (ast.Name, ast.Attribute)) and src(f).split('.')[-1] == 'calcsize' and len(node.args) == 1 and not node.keywords \
+                and isinstance(node.args[0], ast.Constant) and isinstance(node.args[0].value, str):
+            import struct as _st
+            try:
+                return ast.copy_location(ast.Constant(value=_st.calcsize(node.args[0].value)), node)
+            except _st.error:
+                pass
         # struct.Struct(FMT).unpack_from(buf, off) -> struct.unpack_from(FMT, buf, off), likewise pack / pack_into / unpack /
         # iter_unpack; a table of compiled formats {k: Struct(F1), ..}[key].m(..) -> struct.m({k: F1, ..}[key], ..)
         if isinstance(f, ast.Attribute) and f.attr in ('pack', 'unpack', 'unpack_from', 'pack_into', 'iter_unpack') and not node.keywords:
@@ -1538,6 +1546,12 @@ class _Accessors(ast.NodeTransformer):
             if fmt is not None:
                 _Accessors.count += 1
                 _Accessors.needs_struct = True
+                if isinstance(fmt, ast.Constant) and isinstance(fmt.value, str):
+                    import struct as _st
+                    try:
+                        return ast.copy_location(ast.Constant(value=_st.calcsize(fmt.value)), node)
+                    except _st.error:
+                        pass
                 return ast.copy_location(ast.Call(func=ast.Attribute(value=ast.Name(id='struct', ctx=ast.Load()), attr='calcsize', ctx=ast.Load()),
                                                   args=[fmt], keywords=[]), node)
         return node
@@ -2107,6 +2121,91 @@ def _unroll_constant_comprehensions(prog, known):
                             b.value = ast.fix_missing_locations(ast.copy_location(new, b.value))
 
 
+def inline_context_managers(prog):
+    """`with cm(args) [as v]: BODY` where cm is a generator function of the program decorated with @contextmanager whose body is
+    [PRE;] try: yield [VALUE] except E: HANDLER [finally: F]   (or PRE; yield [VALUE]; POST)
+    is  PRE; [v = VALUE;] try: BODY except E: HANDLER [finally: F]   (resp. PRE; BODY; POST - only when BODY cannot leave early)
+    with the parameters replaced by the arguments.  Returns the number of with-statements rewritten."""
+    cms = {}
+    for m in prog.modules.values():
+        for st in ast.walk(m.tree):
+            if isinstance(st, ast.FunctionDef) and any(src(d).split('.')[-1] == 'contextmanager' for d in st.decorator_list):
+                body = _strip_doc(st.body)
+                ys = [x for x in ast.walk(st) if isinstance(x, (ast.Yield, ast.YieldFrom))]
+                if len(ys) != 1 or not isinstance(ys[0], ast.Yield):
+                    continue
+                a = st.args
+                if a.vararg or a.kwarg or a.kwonlyargs:
+                    continue
+                shape = None
+                if body and isinstance(body[-1], ast.Try) and len(body[-1].body) == 1 and isinstance(body[-1].body[0], ast.Expr) \
+                        and body[-1].body[0].value is ys[0] and not body[-1].orelse \
+                        and not any(isinstance(x, (ast.Yield, ast.Return)) for p_ in body[:-1] for x in ast.walk(p_)):
+                    shape = ('try', body[:-1], body[-1])
+                else:
+                    idx = [i for i, b in enumerate(body) if isinstance(b, ast.Expr) and b.value is ys[0]]
+                    if len(idx) == 1 and not any(isinstance(x, ast.Return) for b in body for x in ast.walk(b)):
+                        shape = ('plain', body[:idx[0]], body[idx[0] + 1:])
+                if shape is not None:
+                    cms[st.name] = (st, shape, ys[0])
+    if not cms:
+        return 0
+    count = 0
+
+    def rewrite(stmts):
+        nonlocal count
+        out = []
+        for st in stmts:
+            for fld in ('body', 'orelse', 'finalbody'):
+                sub = getattr(st, fld, None)
+                if isinstance(sub, list) and sub and isinstance(sub[0], ast.stmt):
+                    setattr(st, fld, rewrite(sub))
+            for h in getattr(st, 'handlers', []) or []:
+                h.body = rewrite(h.body)
+            if isinstance(st, ast.With) and len(st.items) == 1 and isinstance(st.items[0].context_expr, ast.Call):
+                call = st.items[0].context_expr
+                name = call.func.id if isinstance(call.func, ast.Name) else call.func.attr if isinstance(call.func, ast.Attribute) else None
+                if name in cms and not call.keywords and not any(isinstance(x, ast.Starred) for x in call.args):
+                    fn, shape, y = cms[name]
+                    params = [p_.arg for p_ in fn.args.posonlyargs + fn.args.args]
+                    if isinstance(call.func, ast.Attribute) and params and params[0] in ('self', 'cls'):
+                        params = params[1:]
+                    defaults = dict(zip(params[len(params) - len(fn.args.defaults):], fn.args.defaults))
+                    if len(call.args) <= len(params) and all(p_ in defaults for p_ in params[len(call.args):]) \
+                            and all(isinstance(x, (ast.Constant, ast.Name, ast.Attribute, ast.JoinedStr)) for x in call.args):
+                        sub = dict(zip(params, call.args))
+                        for p_ in params[len(call.args):]:
+                            sub[p_] = defaults[p_]
+                        S = lambda nodes: [_Subst(sub, {}).visit(copy.deepcopy(n)) for n in nodes]      # noqa: E731
+                        pre = S(shape[1])
+                        bind_v = []
+                        if st.items[0].optional_vars is not None:
+                            if y.value is None:
+                                continue
+                            bind_v = [ast.Assign(targets=[st.items[0].optional_vars], value=_Subst(sub, {}).visit(copy.deepcopy(y.value)), type_comment=None)]
+                        if shape[0] == 'try':
+                            t = shape[2]
+                            new = ast.Try(body=st.body, handlers=S(t.handlers), orelse=[], finalbody=S(t.finalbody))
+                            repl = pre + bind_v + [new]
+                        else:
+                            if any(isinstance(x, (ast.Return, ast.Break, ast.Continue, ast.Raise)) for b in st.body for x in ast.walk(b)) and shape[2]:
+                                out.append(st)
+                                continue
+                            repl = pre + bind_v + st.body + S(shape[2])
+                        for r_ in repl:
+                            ast.copy_location(r_, st)
+                            ast.fix_missing_locations(r_)
+                        out += repl
+                        count += 1
+                        continue
+            out.append(st)
+        return out
+    for m in prog.modules.values():
+        for fn in [x for x in ast.walk(m.tree) if isinstance(x, (ast.FunctionDef, ast.AsyncFunctionDef))]:
+            fn.body = rewrite(fn.body)
+    return count
+
+
 def fold_generated_tables(prog):
     """Module-level tables that are *computed* when the module is loaded - a dict comprehension over `range(..)` / `zip(..)` / a literal
     sequence, followed by `TABLE.update({..})` or `TABLE[k] = v` statements - are written out as the literal display they build, entry
@@ -2221,6 +2320,41 @@ def fold_generated_tables(prog):
             else:
                 d.keys.append(k)
                 d.values.append(v)
+    def class_attr_value(cname, attr):
+        for c in prog.classes.values():
+            if c.name == cname:
+                for k in c.mro():
+                    for b in k.node.body:
+                        if isinstance(b, ast.Assign) and len(b.targets) == 1 and isinstance(b.targets[0], ast.Name) and b.targets[0].id == attr \
+                                and isinstance(b.value, (ast.Attribute, ast.Constant, ast.Name)):
+                            return b.value
+        return None
+    # class-level tables computed from a literal sequence of classes / constants: {K.type: K for K in (A, B, ..)}
+    for c in prog.classes.values():
+        for b in c.node.body:
+            if isinstance(b, ast.Assign) and len(b.targets) == 1 and isinstance(b.targets[0], ast.Name) and isinstance(b.value, ast.DictComp) \
+                    and len(b.value.generators) == 1 and not b.value.generators[0].ifs:
+                els = elements(b.value.generators[0].iter)
+                if els is None:
+                    continue
+                keys, vals, ok = [], [], True
+                for el in els:
+                    bd = bind(b.value.generators[0].target, el)
+                    if bd is None:
+                        ok = False
+                        break
+                    k = _Subst(bd, {}).visit(copy.deepcopy(b.value.key))
+                    v = _Subst(bd, {}).visit(copy.deepcopy(b.value.value))
+                    # Class.attr -> what the class body assigns to attr (an enum member, a constant)
+                    if isinstance(k, ast.Attribute) and isinstance(k.value, ast.Name):
+                        cv = class_attr_value(k.value.id, k.attr)
+                        if cv is not None:
+                            k = copy.deepcopy(cv)
+                    keys.append(k)
+                    vals.append(v)
+                if ok and keys:
+                    b.value = ast.fix_missing_locations(ast.copy_location(ast.Dict(keys=keys, values=vals), b.value))
+                    done.append('%s.%s' % (c.qual, b.targets[0].id))
     for m in prog.modules.values():
         tables, generated = {}, set()
         body = []
@@ -2510,11 +2644,19 @@ class Inliner:
             recv = call.func.value
             if isinstance(recv, ast.Call) and isinstance(recv.func, ast.Name) and recv.func.id == 'super':
                 raise Unsupported('super() call')
+            cargs = list(call.args)
+            if (not fi_callee.is_classmethod and isinstance(recv, ast.Name) and cargs and not isinstance(cargs[0], ast.Starred)
+                    and any(c.name == recv.id and fi_callee.cls in c.mro() for c in self.prog.classes.values())
+                    and recv.id not in _stored_names(caller_node)):
+                # `Class.method(obj, ..)`: the method through its class, the receiver passed explicitly
+                recv, cargs = cargs[0], cargs[1:]
             bound[params[0]] = recv
             params = params[1:]
+        else:
+            cargs = list(call.args)
         vararg = n.args.vararg.arg if n.args.vararg else None
         extra = []
-        for i, a in enumerate(call.args):
+        for i, a in enumerate(cargs):
             if isinstance(a, ast.Starred):
                 raise Unsupported('argument list does not match the signature')
             if i >= len(params):
@@ -2804,6 +2946,10 @@ class Inliner:
                 k = unroll_literal_loops(fi.node)
                 if k:
                     self.report.setdefault('unrolled_literal_loops', {})[q] = k
+        k = inline_context_managers(prog)
+        if k:
+            self.report['context_managers'] = k
+            prog.reindex()
         self.report['generated_tables'] = fold_generated_tables(prog)
         if self.report['generated_tables']:
             prog.reindex()
